@@ -317,6 +317,8 @@ class SimPool:
     import_snapshot: dict = {}  # module name -> shallow copy of its globals taken right after import
     snapshot_keep: dict = {}    # module name -> names the harness patched on purpose (seams), kept as they are
     fail_create = None          # exception instance to raise from the constructor (resource exhaustion at pool creation)
+    reentry = None              # {"at": n, "count": 0, "fn": callable}: while the caller is blocked on this pool for the n-th
+                                # time "another caller thread" runs fn to completion (a schedule of two overlapping API calls)
 
     def __init__(self, processes=None, initializer=None, initargs=(), maxtasksperchild=None, context=None):
         if SimPool.sim is None:
@@ -447,6 +449,14 @@ class SimPool:
 
     def _wait(self, cond, timeout, what):
         while not cond():
+            r = SimPool.reentry
+            if r is not None:
+                r["count"] += 1
+                if r["count"] > r["at"]:
+                    SimPool.reentry = None
+                    self.log.add("reentry", what)
+                    self.stats["reentries"] = self.stats.get("reentries", 0) + 1
+                    r["fn"]()
             if timeout is not None and self.chooser.draw(4, "sched.timeout") == 0:
                 self.log.add("timeout", what)
                 self.stats["timeouts_fired"] = self.stats.get("timeouts_fired", 0) + 1
